@@ -605,3 +605,29 @@ Theorem C05_source_bed_row_gene : forall g h,
   fst (fst (Gen.FnRefBedRow.fn_bed_row g h)) = (if h then g else "-"%string) /\
   snd (fst (Gen.FnRefBedRow.fn_bed_row g h)) = 0.
 Proof. exact Proofs.FnRefBedRow.fn_bed_row_gene. Qed.
+
+From CNV Require Proofs.FnRefSexesLib Proofs.FnRefSexesInfer Proofs.FnRefSexesMerge Proofs.FnRefSexesGiven.
+
+(* the `sexes` dictionary.  infer_sexes' loop, the generated iteration folded over the files from {}: the model's
+   infer_dict (a file without rows or without a guess leaves no entry; a later file of the same sample overrides) *)
+Theorem C05_source_infer_sexes : forall files k,
+  Proofs.FnRefSexesInfer.infer_loop (fun _ => None) files k =
+  dict_get (infer_dict (map Proofs.FnRefSexesInfer.f_id files) (map Proofs.FnRefSexesInfer.f_effective files)) k.
+Proof. exact Proofs.FnRefSexesInfer.fn_infer_loop_eq. Qed.
+
+(* do_reference's merge loop, one generated iteration: an antitarget call always ends up as the sample's entry
+   ("preferring antitargets"), whatever the target call was ... *)
+Theorem C05_source_sexes_merge_step : forall sid a p,
+  Gen.FnRefSexesMerge.fn_merge_step sid (Some a) p p = Some a.
+Proof. exact Proofs.FnRefSexesMerge.fn_merge_step_some. Qed.
+
+(* ... and the loop over the antitarget calls, started from the target calls, leaves the model's sexes_inferred *)
+Theorem C05_source_sexes_inferred : forall tids tguess aids aguess k,
+  Proofs.FnRefSexesMerge.merge_loop (dict_get (infer_dict tids tguess)) (infer_dict aids aguess) k =
+  dict_get (sexes_inferred tids tguess aids aguess) k.
+Proof. exact Proofs.FnRefSexesMerge.fn_sexes_inferred_eq. Qed.
+
+(* female_samples given: the generated iteration folded over the target files leaves the model's sexes_given *)
+Theorem C05_source_sexes_given : forall female targets k,
+  Proofs.FnRefSexesGiven.given_loop female (fun _ => None) (map s_id targets) k = dict_get (sexes_given female targets) k.
+Proof. exact Proofs.FnRefSexesGiven.fn_given_loop_eq. Qed.
